@@ -212,7 +212,10 @@ def skeletons(max_ops, thorough):
 
 
 def mk_values(max_ops, thorough, part, nparts):
-    import z3
+    try:
+        import z3            # engine interpreter; the plain replay interpreter only needs `fn` below
+    except ImportError:
+        z3 = None
     from emmet.math_expression import evaluate
     from emmet.math_expression.parser import parse, TokenType
 
